@@ -184,3 +184,16 @@ def canStart : Re → Char → Bool
   | .star a, c => canStart a c
 
 end Spec
+
+namespace Spec
+open Py Model
+
+/-- lines, each ended by "\n" -/
+def joinLines : List Text → Text
+  | [] => []
+  | l :: ls => l ++ '\n' :: joinLines ls
+
+/-- a line (without its line feed) in which no `TAG[ \t]` starts -/
+def tagFreeLine (tag l : Text) : Bool := noNewline l && noEarlierTag tag l ['\n']
+
+end Spec
